@@ -194,8 +194,16 @@ pub fn build(x: &U2fSpec) -> (ctap1::Response, Vec<u8>) {
             (ctap1::Response::Authenticate(r), model)
         }
         _ => {
-            let v: [u8; 6] = fb(x.fill, 8, 6).try_into().unwrap();
-            let v = if x.fill % 2 == 0 { *b"U2F_V2" } else { v };
+            let r: [u8; 6] = fb(x.fill, 8, 6).try_into().unwrap();
+            let v: [u8; 6] = match x.fill % 8 {
+                0 | 1 => *b"U2F_V2",
+                2 => [0; 6],
+                3 => [r[0], r[1], r[2], r[3], r[4], 0],
+                4 => [0, r[1], r[2], r[3], r[4], r[5]],
+                5 => [r[0], r[1], 0, 0, 0, 0],
+                6 => [0xff; 6],
+                _ => r,
+            };
             (ctap1::Response::Version(v), v.to_vec())
         }
     }
